@@ -63,13 +63,15 @@ def r20_1(ctx):
 
 def r20_2(ctx):
     out = []
-    for p, cls, bound in (('plain::Cache::get', 'open_ro', 1), ('sharded::Cache::get', 'open_ro', 2),
-                          ('plain::Cache::touch', 'meta_atime', 1), ('sharded::Cache::touch', 'meta_atime', 2)):
+    OPEN = ('open_ro', 'open_rw')
+    TOUCH = ('meta_atime', 'meta_times', 'meta_times_h')
+    for p, cls, bound in (('plain::Cache::get', OPEN, 1), ('sharded::Cache::get', OPEN, 2),
+                          ('plain::Cache::touch', TOUCH, 1), ('sharded::Cache::touch', TOUCH, 2)):
         q = ctx.explore(ctx.key_of(p))
-        E = q.prim_edges(cls)
+        E = q.prim_edges(set(cls))
         n = q.max_count(E)
         ok = 1 <= n <= bound
-        out.append(inst('R20.2', '%s|%s' % (p, cls), ok, 'max %s attempts on any path = %s (bound %d)' % (cls, n, bound),
+        out.append(inst('R20.2', '%s|%s' % (p, cls[0]), ok, 'max %s attempts on any path = %s (bound %d)' % (cls[0], n, bound),
                         path=witness_path(q, E[-1]) if (not ok and E) else []))
     wt = ctx.role('write_trait')
     for name, k in public_methods_of(ctx, ctx.role('stack_cache'), ('get', 'touch')):
